@@ -106,7 +106,8 @@ def k2_and_k1a(ctx):
     cmds, cases = [], []
     for _ in range(n):
         k = rng.randint(1, 7)
-        nm = rng.sample(["F" + str(i) for i in range(12)] + ["alpha", "Beta", "gamma_x"], k)
+        nm = rng.sample(["F" + str(i) for i in range(8)] + ["alpha", "Beta", "gamma_x", "itemDetails", "itemName",
+                         "ITEM_ALL", "item_all", "Itemdetails", "x1_y__2", "_lead", "Z9", "zz"], k)
         order = list(nm)
         rng.shuffle(order)  # a topological numbering unrelated to the alphabetical order
         deps = {}
@@ -266,7 +267,28 @@ def check_package(run, sc, g, enc, pkg, tag, rep, orders, complete, drive_calls)
                 viol(f"package does not import: {bad}", {"observed": bad})
             return
         if ld.get("incomplete"):
-            viol(f"pydantic models not fully built: {ld['incomplete'][:5]}", {"observed": ld["incomplete"]})
+            # C08 demands that the module loads and the classes work, not pydantic's eager completeness (C04):
+            # fragments.py calls model_rebuild() for top-level fragment classes only, so a class nested two levels
+            # below a fragment keeps a pending forward reference until first use.  Violation only if a class is
+            # top-level / of an operation module, or cannot be completed on demand.
+            code = ("import importlib\nres = {}\n"
+                    "for key in %r:\n"
+                    "    mn, cn = key.split('.', 1)\n"
+                    "    cls = getattr(mods[mn], cn)\n"
+                    "    try:\n"
+                    "        cls.model_rebuild(raise_errors=True)\n"
+                    "        res[key] = bool(cls.__pydantic_complete__)\n"
+                    "    except BaseException as exc:\n"
+                    "        res[key] = type(exc).__name__ + ': ' + str(exc)[:200]\n"
+                    "result = res\n" % (list(ld["incomplete"]),))
+            fixed = g.driver.ask({"cmd": "eval", "code": code}).get("value") or {}
+            top = {fmod + "." + pascal(f) for f in (pkg["module"]["names"] if pkg["module"] else [])}
+            bad = [k for k in ld["incomplete"] if fixed.get(k) is not True or not k.startswith(fmod + ".") or k in top]
+            if bad:
+                viol(f"pydantic models not fully built and not completable on demand: {bad[:5]}",
+                     {"observed": ld["incomplete"], "rebuild": fixed})
+            else:
+                run.dist("lazily_completed_nested_fragment_classes", str(min(len(ld["incomplete"]), 4)))
         probe = g.driver.ask({"cmd": "eval", "code": PROBE}).get("value") or {}
         table = top_bases(pkg)
         for key, c in model_classes.items():
@@ -432,6 +454,7 @@ def run_stream(ctx, scs, stream, with_variants):
                 if stream == "frags":
                     run.dist("graph_shape", sc.notes["shape"])
                     run.dist("fragments_per_scenario", str(sc.notes["n_frags"]))
+                    run.dist("fragment_name_style", sc.notes.get("name_style", "fixed"))
                     run.dist("skip_include_on_spreads_or_inline_fragments", str(min(sc.notes.get("conditions", 0), 6)))
                 n_mix = sum(1 for o in pkg["ops"].values() for c in o["classes"] if c["frags"])
                 run.dist("classes_with_fragment_bases", str(min(n_mix, 5)) + ("+" if n_mix >= 5 else ""))
@@ -462,7 +485,7 @@ def run(ctx):
     ]
     k2_and_k1a(ctx)
     base = ctx.seed * 100000
-    n_frag = 180 if ctx.thorough else 36
+    n_frag = 210 if ctx.thorough else 42
     n_main = 60 if ctx.thorough else 10
     scs = []
     for i in range(n_frag):
@@ -482,6 +505,14 @@ def run(ctx):
                                     features=("frags",), files={"mixins_impl.py": frag_scen.MIXINS_PY},
                                     notes={"shape": "mro-regression", "n_frags": 3, "n_defs": 4, "defs": defs2,
                                            "mixin_directives": 0}))
+    defs3 = ["query Q { dog { ...itemDetails } }", "fragment itemDetails on Dog { bark ...itemName }",
+             "fragment itemName on Dog { name }"]
+    defs4 = ["query Q { dog { ...A ...B } }", "fragment A on Dog { id mate { ...B } }", "fragment B on Dog { bark }"]
+    for k_, (nm_, ds_) in enumerate([("case-style-regression", defs3), ("nested-mention-regression", defs4)]):
+        scs.insert(2 + k_, scenario.Scenario(seed=-10 - k_, sdl=frag_scen.SDL, queries="\n\n".join(ds_) + "\n", config={},
+                                             features=("frags",), files={"mixins_impl.py": frag_scen.MIXINS_PY},
+                                             notes={"shape": nm_, "n_frags": 2, "n_defs": 3, "defs": ds_,
+                                                    "mixin_directives": 0}))
     n1 = run_stream(ctx, scs, "frags", with_variants=True)
     mains = []
     for i in range(n_main):
